@@ -46,17 +46,21 @@ class ScopeGen:
                 lines.append("%sinherit %s;" % (ind, n))
             elif r < 0.92:
                 helper_needed = True
-                lines.append("%sinherit (s%d) %s;" % (ind, self.k + 1, n))
                 hname = "s%d" % (self.k + 1)
+                quoted = ""
+                if rng.random() < 0.3:
+                    # a quoted name listed in front of the inherited name in the same clause
+                    quoted = '"q-%d" ' % (self.k + 1)
+                lines.append("%sinherit (%s) %s%s;" % (ind, hname, quoted, n))
                 if rng.random() < 0.6:
                     # the helper set uses a name it also defines: `r` refers to the *enclosing* scope's name
                     # (a plain set binds nothing for its own values)
                     other = rng.choice([x for x in NAMES if x != n])
-                    lines.append("%s%s = { %s = %s; %s = %s; r = %s; };" % (ind, hname, n, self.lit(), other, self.lit(), other))
+                    lines.append("%s%s = { %s%s = %s; %s = %s; r = %s; };" % (ind, hname, ('%s= 0; ' % quoted) if quoted else "", n, self.lit(), other, self.lit(), other))
                     if not in_set:
                         self.helpers.append((hname, other))
                 else:
-                    lines.append("%s%s = { %s = %s; };" % (ind, hname, n, self.lit()))
+                    lines.append("%s%s = { %s%s = %s; };" % (ind, hname, ('%s= 0; ' % quoted) if quoted else "", n, self.lit()))
             else:
                 lines.append("%s%s = %s + 1;" % (ind, n, self.lit()))
         if rng.random() < 0.12 and len(names) <= 1:
